@@ -320,7 +320,8 @@ def _register():
                                        "long_stream_33000", "long_stream_66000", "pre_handshake_frames"))
     _SPECS["C19"] = PubSubSpec("C19", ("handshake_checked", "acked_control_checked", "unacked_frame_checked",
                                        "logger_copy_checked", "refused_or_ignored_connect_checked"))
-    s = PubSubSpec("C14", ("notices_expected", "logger_waited", "drop_branch", "write_fail"))
+    s = PubSubSpec("C14", ("notices_expected", "logger_waited", "drop_branch", "write_fail", "no_logger_observer",
+                           "mgr_originated_notices_expected"))
     s.level = "fault_enumeration"
     s.rule = PubSubSpec.rule + ("; additionally the finite table k=1..4 subscribers x {writable, not writable, write fails}^k x "
                                "{no logger, logger at position i} (546 cells) is run once per cell in thorough, every fourth "
